@@ -322,7 +322,7 @@ def split_sig_body(text):
     return head, text[m.start():p].rstrip(), text[p:]
 
 
-def inject(spec, text, contract, warnings):
+def inject(spec, text, contract, warnings, vac=False):
     """returns Out for one function under contract"""
     out = Out()
     fnm = spec.key
@@ -336,6 +336,10 @@ def inject(spec, text, contract, warnings):
     if ret:
         if '->' in sig:
             sig = re.sub(r'->\s*(.+)$', lambda m: '-> (%s: %s)' % (ret, m.group(1).strip()), sig, flags=re.S)
+    if vac:
+        sig, n = re.subn(r'\bfn\s+%s\b' % re.escape(spec.name), 'fn %s__vac' % spec.name, sig, count=1)
+        if n != 1:
+            raise AnchorLost('%s: cannot name the must-fail twin' % fnm)
     base = dict(fn=fnm, kind='body', name='', tags=spec.tags)
     if spec.trusted:
         # contract stated, body NOT verified (listed as trusted in the evidence until its proof is in place)
@@ -352,8 +356,9 @@ def inject(spec, text, contract, warnings):
         for l in contract.requires:
             out.add('        ' + l, dict(base, kind='requires'))
     ens = list(contract.ensures)
-    if os.environ.get('VERIF_VACUITY'):
-        # must-fail twin: with this clause added the function has to be REJECTED, else a requires/assumed contract is contradictory
+    if vac:
+        # must-fail twin: a COPY of the function (same body, same callees with their real contracts) with this clause added has to be
+        # REJECTED, else its requires, or what it assumes about a callee, is contradictory and the real obligations hold vacuously
         ens.append(('vacuity', spec.tags, ['false,']))
     if ens:
         out.add('    ensures', dict(base, kind='ensures'))
@@ -538,6 +543,9 @@ def build(out_path, only=None):
             hoisted_all += [(sp.key, h) for h in hoisted]
             text = generic_rewrites(text, sp.key)
             o = inject(sp, text, con, warnings)
+            if os.environ.get('VERIF_VACUITY') and not sp.trusted:
+                o.add('')
+                o.extend(inject(sp, text, con, [], vac=True))
         except AnchorLost as e:
             if str(e).startswith(sp.key + ': '):
                 raise
